@@ -494,6 +494,8 @@ PROPS = {
         "rule": "streams: limit (format and infer -i on generated files - plain, big, empty, already formatted, unparseable, no final newline; modes 0644/0600/0664/0640 - under "
                 "RLIMIT_FSIZE = k for boundary and random k, every k for small files in the thorough tier), inject (error x {EIO,ENOSPC,EACCES} or SIGKILL at the n-th call of nine syscalls, "
                 "clean-up made to fail), perm (uid 65534, directory modes 555/755/777/500, file modes 644/444/400/000/600/200), multi (2-6 files, one unparseable, limit between the sizes), "
+                "siblings (2-12 files in one command, 0-3 failing at the first/middle/last/random argument positions by a damaged line, non-text bytes, mode 000 as uid 65534, a missing file or "
+                "RLIMIT_FSIZE between the sizes, GOMAXPROCS 1/2/16/unset and schedule seeds: every file that parses and meets no fault of its own holds its complete new contents, every other one its old ones), "
                 "facts (go/ast). A class = (stream, command, file kind, cut/fits, limit bucket) resp. (syscall, file kind, exit) resp. (dir mode, file mode, kind) resp. (n, bad, limit, exit).",
         "assumptions": ["rename(2) replaces the target atomically and fsync makes the temp file durable before it (kernel / file system)",
                         "the temp name chosen by ioutil.TempFile is fresh (O_EXCL) and differs from every target"],
